@@ -1,70 +1,66 @@
 /-
-Second generic contract: procedures that assign no pointer field, not `rb.root`, allocate nothing and call only
-procedures of the same kind ("pure with respect to the pointer structure": the getters, `setColor`, `setNode`) leave
-every pointer field of every node, the root pointer and the allocation counter exactly as they were.
-One induction over the syntax, like Lemmas/RBPtrSafe.lean, with a simpler invariant.
+Fourth generic contract: procedures that never assign a `color` field, never allocate and call only procedures of the
+same kind leave the colour of every node as it is (the getters, `setNode`, the searches, `Find`, `Set`).
 -/
 import Ekit.MiniGo.RBContract
 
 namespace Ekit.MiniGo.RBHeap
 open Ekit.MiniGo Ekit.Gen.RBTreeGo
 
-/-- the pointer structure is untouched -/
-def PtrSame (st st' : St) : Prop :=
-  (∀ a, SamePtrs (st'.h a) (st.h a)) ∧ st'.root = st.root ∧ st'.alloc = st.alloc
+/-- no colour changed -/
+def ColSame (st st' : St) : Prop := ∀ a, (st'.h a).color = (st.h a).color
 
-theorem PtrSame.refl (st : St) : PtrSame st st := ⟨fun _ => ⟨rfl, rfl, rfl⟩, rfl, rfl⟩
-theorem PtrSame.trans {a b c : St} (h1 : PtrSame a b) (h2 : PtrSame b c) : PtrSame a c :=
-  ⟨fun x => ⟨(h2.1 x).1.trans (h1.1 x).1, (h2.1 x).2.1.trans (h1.1 x).2.1, (h2.1 x).2.2.trans (h1.1 x).2.2⟩,
-   h2.2.1.trans h1.2.1, h2.2.2.trans h1.2.2⟩
+theorem ColSame.refl (st : St) : ColSame st st := fun _ => rfl
+theorem ColSame.trans {a b c : St} (h1 : ColSame a b) (h2 : ColSame b c) : ColSame a c :=
+  fun x => (h2 x).trans (h1 x)
 
-def isPure : PName → Bool
+def isNoCol : PName → Bool
   | .getColor | .getParent | .getLeft | .getRight | .getUncle | .getGrandParent | .getBrother
-  | .setColor | .setNode | .findNode | .findSuccessor | .Find | .Set => true
+  | .setNode | .findNode | .findSuccessor | .Find | .Set => true
   | _ => false
 
-def pureE : Expr PName → Bool
+def ncE : Expr PName → Bool
   | .nil | .int _ | .bool _ | .err _ | .unit | .var _ | .root | .size => true
-  | .field e _ => pureE e
-  | .cmp a b | .eq a b | .ne a b | .lt a b | .gt a b | .and a b | .or a b | .add a b => pureE a && pureE b
-  | .not a => pureE a
-  | .call0 fn => isPure fn
-  | .call1 fn a => isPure fn && pureE a
-  | .call2 fn a b => isPure fn && pureE a && pureE b
-  | .call3 fn a b c => isPure fn && pureE a && pureE b && pureE c
+  | .field e _ => ncE e
+  | .cmp a b | .eq a b | .ne a b | .lt a b | .gt a b | .and a b | .or a b | .add a b => ncE a && ncE b
+  | .not a => ncE a
+  | .call0 fn => isNoCol fn
+  | .call1 fn a => isNoCol fn && ncE a
+  | .call2 fn a b => isNoCol fn && ncE a && ncE b
+  | .call3 fn a b c => isNoCol fn && ncE a && ncE b && ncE c
   | .alloc .. => false
 
-def pureS : Stmt PName → Bool
+def ncS : Stmt PName → Bool
   | .skip | .continue_ | .break_ => true
-  | .seq a b => pureS a && pureS b
-  | .assign _ e => pureE e
-  | .setField p f e => !ptrFld f && pureE p && pureE e
-  | .setRoot _ => false
-  | .setSize e => pureE e
-  | .ite c t e => pureE c && pureS t && pureS e
-  | .loop c b => pureE c && pureS b
-  | .ret e => pureE e
-  | .ret2 a b => pureE a && pureE b
-  | .expr e => pureE e
+  | .seq a b => ncS a && ncS b
+  | .assign _ e => ncE e
+  | .setField p f e => (f != .color) && ncE p && ncE e
+  | .setRoot e => ncE e
+  | .setSize e => ncE e
+  | .ite c t e => ncE c && ncS t && ncS e
+  | .loop c b => ncE c && ncS b
+  | .ret e => ncE e
+  | .ret2 a b => ncE a && ncE b
+  | .expr e => ncE e
 
-theorem pure_procs_pure : ∀ fn, isPure fn = true → pureS (procs fn).body = true := by
+theorem nocol_procs : ∀ fn, isNoCol fn = true → ncS (procs fn).body = true := by
   intro fn; cases fn <;> decide
 
-def SpecPure (callH : CallH PName) (fn : PName) : Prop :=
-  ∀ args st v st', callH fn args st = .ok (v, st') → PtrSame st st'
+def SpecNoCol (callH : CallH PName) (fn : PName) : Prop :=
+  ∀ args st v st', callH fn args st = .ok (v, st') → ColSame st st'
 
-theorem set_nonptr_ptrs {n m : Node} {f : Fld} {v : Val} (hf : ptrFld f = false) (h : n.set f v = some m) :
-    SamePtrs m n := by
-  cases f <;> cases v <;> simp [Node.set, ptrFld] at h hf <;> subst h <;> exact ⟨rfl, rfl, rfl⟩
+theorem set_noncolor {n m : Node} {f : Fld} {v : Val} (hf : (f != Fld.color) = true) (h : n.set f v = some m) :
+    m.color = n.color := by
+  cases f <;> cases v <;> simp [Node.set] at h hf <;> subst h <;> rfl
 
 section
-variable (cmpF : Int → Int → Int) (callH : CallH PName) (hP : ∀ fn, isPure fn = true → SpecPure callH fn)
-include hP
+variable (cmpF : Int → Int → Int) (callH : CallH PName) (hC : ∀ fn, isNoCol fn = true → SpecNoCol callH fn)
+include hC
 
-def PGoodE (e : Expr PName) : Prop :=
-  ∀ ρ st v st', evalE cmpF callH ρ st e = .ok (v, st') → PtrSame st st'
+def CGoodE (e : Expr PName) : Prop :=
+  ∀ ρ st v st', evalE cmpF callH ρ st e = .ok (v, st') → ColSame st st'
 
-theorem evalE_pure : ∀ e : Expr PName, pureE e = true → PGoodE cmpF callH e := by
+theorem evalE_nc : ∀ e : Expr PName, ncE e = true → CGoodE cmpF callH e := by
   intro e
   induction e with
   | nil => intro _ ρ st v st' h; simp [evalE] at h; obtain ⟨_, rfl⟩ := h; exact .refl _
@@ -77,7 +73,7 @@ theorem evalE_pure : ∀ e : Expr PName, pureE e = true → PGoodE cmpF callH e 
   | size => intro _ ρ st v st' h; simp [evalE] at h; obtain ⟨_, rfl⟩ := h; exact .refl _
   | field e f ih =>
     intro hs ρ st v st' h
-    simp only [pureE] at hs
+    simp only [ncE] at hs
     simp only [evalE] at h
     cases he : evalE cmpF callH ρ st e with
     | error x => simp [he] at h
@@ -93,7 +89,7 @@ theorem evalE_pure : ∀ e : Expr PName, pureE e = true → PGoodE cmpF callH e 
       | _ => simp at h
   | cmp a b iha ihb =>
     intro hs ρ st v st' h
-    simp only [pureE, Bool.and_eq_true] at hs
+    simp only [ncE, Bool.and_eq_true] at hs
     simp only [evalE] at h
     cases h1 : evalE cmpF callH ρ st a with
     | error x => simp [h1] at h
@@ -114,7 +110,7 @@ theorem evalE_pure : ∀ e : Expr PName, pureE e = true → PGoodE cmpF callH e 
       | _ => simp at h
   | lt a b iha ihb =>
     intro hs ρ st v st' h
-    simp only [pureE, Bool.and_eq_true] at hs
+    simp only [ncE, Bool.and_eq_true] at hs
     simp only [evalE] at h
     cases h1 : evalE cmpF callH ρ st a with
     | error x => simp [h1] at h
@@ -135,7 +131,7 @@ theorem evalE_pure : ∀ e : Expr PName, pureE e = true → PGoodE cmpF callH e 
       | _ => simp at h
   | gt a b iha ihb =>
     intro hs ρ st v st' h
-    simp only [pureE, Bool.and_eq_true] at hs
+    simp only [ncE, Bool.and_eq_true] at hs
     simp only [evalE] at h
     cases h1 : evalE cmpF callH ρ st a with
     | error x => simp [h1] at h
@@ -156,7 +152,7 @@ theorem evalE_pure : ∀ e : Expr PName, pureE e = true → PGoodE cmpF callH e 
       | _ => simp at h
   | add a b iha ihb =>
     intro hs ρ st v st' h
-    simp only [pureE, Bool.and_eq_true] at hs
+    simp only [ncE, Bool.and_eq_true] at hs
     simp only [evalE] at h
     cases h1 : evalE cmpF callH ρ st a with
     | error x => simp [h1] at h
@@ -177,7 +173,7 @@ theorem evalE_pure : ∀ e : Expr PName, pureE e = true → PGoodE cmpF callH e 
       | _ => simp at h
   | eq a b iha ihb =>
     intro hs ρ st v st' h
-    simp only [pureE, Bool.and_eq_true] at hs
+    simp only [ncE, Bool.and_eq_true] at hs
     simp only [evalE] at h
     cases h1 : evalE cmpF callH ρ st a with
     | error x => simp [h1] at h
@@ -198,7 +194,7 @@ theorem evalE_pure : ∀ e : Expr PName, pureE e = true → PGoodE cmpF callH e 
           exact (iha hs.1 ρ st x st1 h1).trans (ihb hs.2 ρ st1 y st2 h2)
   | ne a b iha ihb =>
     intro hs ρ st v st' h
-    simp only [pureE, Bool.and_eq_true] at hs
+    simp only [ncE, Bool.and_eq_true] at hs
     simp only [evalE] at h
     cases h1 : evalE cmpF callH ρ st a with
     | error x => simp [h1] at h
@@ -219,7 +215,7 @@ theorem evalE_pure : ∀ e : Expr PName, pureE e = true → PGoodE cmpF callH e 
           exact (iha hs.1 ρ st x st1 h1).trans (ihb hs.2 ρ st1 y st2 h2)
   | and a b iha ihb =>
     intro hs ρ st v st' h
-    simp only [pureE, Bool.and_eq_true] at hs
+    simp only [ncE, Bool.and_eq_true] at hs
     simp only [evalE] at h
     cases h1 : evalE cmpF callH ρ st a with
     | error x => simp [h1] at h
@@ -245,7 +241,7 @@ theorem evalE_pure : ∀ e : Expr PName, pureE e = true → PGoodE cmpF callH e 
       | _ => simp at h
   | or a b iha ihb =>
     intro hs ρ st v st' h
-    simp only [pureE, Bool.and_eq_true] at hs
+    simp only [ncE, Bool.and_eq_true] at hs
     simp only [evalE] at h
     cases h1 : evalE cmpF callH ρ st a with
     | error x => simp [h1] at h
@@ -271,7 +267,7 @@ theorem evalE_pure : ∀ e : Expr PName, pureE e = true → PGoodE cmpF callH e 
       | _ => simp at h
   | not a iha =>
     intro hs ρ st v st' h
-    simp only [pureE] at hs
+    simp only [ncE] at hs
     simp only [evalE] at h
     cases h1 : evalE cmpF callH ρ st a with
     | error x => simp [h1] at h
@@ -284,22 +280,22 @@ theorem evalE_pure : ∀ e : Expr PName, pureE e = true → PGoodE cmpF callH e 
       exact S1
   | call0 fn =>
     intro hs ρ st v st' h
-    simp only [pureE] at hs
+    simp only [ncE] at hs
     simp only [evalE] at h
-    exact hP fn hs [] st v st' h
+    exact hC fn hs [] st v st' h
   | call1 fn a iha =>
     intro hs ρ st v st' h
-    simp only [pureE, Bool.and_eq_true] at hs
+    simp only [ncE, Bool.and_eq_true] at hs
     simp only [evalE] at h
     cases h1 : evalE cmpF callH ρ st a with
     | error x => simp [h1] at h
     | ok r1 =>
       obtain ⟨x, st1⟩ := r1
       rw [h1] at h
-      exact (iha hs.2 ρ st x st1 h1).trans (hP fn hs.1 [x] st1 v st' h)
+      exact (iha hs.2 ρ st x st1 h1).trans (hC fn hs.1 [x] st1 v st' h)
   | call2 fn a b iha ihb =>
     intro hs ρ st v st' h
-    simp only [pureE, Bool.and_eq_true] at hs
+    simp only [ncE, Bool.and_eq_true] at hs
     simp only [evalE] at h
     cases h1 : evalE cmpF callH ρ st a with
     | error x => simp [h1] at h
@@ -312,10 +308,10 @@ theorem evalE_pure : ∀ e : Expr PName, pureE e = true → PGoodE cmpF callH e 
       | ok r2 =>
         obtain ⟨y, st2⟩ := r2
         rw [h2] at h
-        exact ((iha hs.1.2 ρ st x st1 h1).trans (ihb hs.2 ρ st1 y st2 h2)).trans (hP fn hs.1.1 [x, y] st2 v st' h)
+        exact ((iha hs.1.2 ρ st x st1 h1).trans (ihb hs.2 ρ st1 y st2 h2)).trans (hC fn hs.1.1 [x, y] st2 v st' h)
   | call3 fn a b c iha ihb ihc =>
     intro hs ρ st v st' h
-    simp only [pureE, Bool.and_eq_true] at hs
+    simp only [ncE, Bool.and_eq_true] at hs
     simp only [evalE] at h
     cases h1 : evalE cmpF callH ρ st a with
     | error x => simp [h1] at h
@@ -335,17 +331,17 @@ theorem evalE_pure : ∀ e : Expr PName, pureE e = true → PGoodE cmpF callH e 
           obtain ⟨z, st3⟩ := r3
           rw [h3] at h
           exact (((iha hs.1.1.2 ρ st x st1 h1).trans (ihb hs.1.2 ρ st1 y st2 h2)).trans
-            (ihc hs.2 ρ st2 z st3 h3)).trans (hP fn hs.1.1.1 [x, y, z] st3 v st' h)
-  | alloc c k v l r p => intro hs; simp [pureE] at hs
+            (ihc hs.2 ρ st2 z st3 h3)).trans (hC fn hs.1.1.1 [x, y, z] st3 v st' h)
+  | alloc c k v l r p => intro hs; simp [ncE] at hs
 
-def PGoodS (lf : Nat) (s : Stmt PName) : Prop :=
-  ∀ ρ st fl ρ' st', exec cmpF callH lf ρ st s = .ok (fl, ρ', st') → PtrSame st st'
+def CGoodS (lf : Nat) (s : Stmt PName) : Prop :=
+  ∀ ρ st fl ρ' st', exec cmpF callH lf ρ st s = .ok (fl, ρ', st') → ColSame st st'
 
-omit hP in
-theorem iterate_pure {cond : Env → St → Res (Val × St)} {body : Env → St → Res (Flow × Env × St)}
-    (hc : ∀ ρ st v st', cond ρ st = .ok (v, st') → PtrSame st st')
-    (hb : ∀ ρ st fl ρ' st', body ρ st = .ok (fl, ρ', st') → PtrSame st st') :
-    ∀ n ρ st fl ρ' st', iterate cond body n ρ st = .ok (fl, ρ', st') → PtrSame st st' := by
+omit hC in
+theorem iterate_nc {cond : Env → St → Res (Val × St)} {body : Env → St → Res (Flow × Env × St)}
+    (hc : ∀ ρ st v st', cond ρ st = .ok (v, st') → ColSame st st')
+    (hb : ∀ ρ st fl ρ' st', body ρ st = .ok (fl, ρ', st') → ColSame st st') :
+    ∀ n ρ st fl ρ' st', iterate cond body n ρ st = .ok (fl, ρ', st') → ColSame st st' := by
   intro n
   induction n with
   | zero => intro ρ st fl ρ' st' h; simp [iterate] at h
@@ -377,7 +373,7 @@ theorem iterate_pure {cond : Env → St → Res (Val × St)} {body : Env → St 
             | ret w => simp at h; obtain ⟨_, _, rfl⟩ := h; exact S1.trans S2
       | _ => simp at h
 
-theorem exec_pure (lf : Nat) : ∀ s : Stmt PName, pureS s = true → PGoodS cmpF callH lf s := by
+theorem exec_nc (lf : Nat) : ∀ s : Stmt PName, ncS s = true → CGoodS cmpF callH lf s := by
   intro s
   induction s with
   | skip => intro _ ρ st fl ρ' st' h; simp [exec] at h; obtain ⟨_, _, rfl⟩ := h; exact .refl _
@@ -385,7 +381,7 @@ theorem exec_pure (lf : Nat) : ∀ s : Stmt PName, pureS s = true → PGoodS cmp
   | break_ => intro _ ρ st fl ρ' st' h; simp [exec] at h; obtain ⟨_, _, rfl⟩ := h; exact .refl _
   | seq a b iha ihb =>
     intro hs ρ st fl ρ' st' h
-    simp only [pureS, Bool.and_eq_true] at hs
+    simp only [ncS, Bool.and_eq_true] at hs
     simp only [exec] at h
     cases h1 : exec cmpF callH lf ρ st a with
     | error x => simp [h1] at h
@@ -400,7 +396,7 @@ theorem exec_pure (lf : Nat) : ∀ s : Stmt PName, pureS s = true → PGoodS cmp
       | ret w => simp at h; obtain ⟨_, _, rfl⟩ := h; exact S1
   | assign x e =>
     intro hs ρ st fl ρ' st' h
-    simp only [pureS] at hs
+    simp only [ncS] at hs
     simp only [exec] at h
     cases h1 : evalE cmpF callH ρ st e with
     | error x => simp [h1] at h
@@ -408,10 +404,10 @@ theorem exec_pure (lf : Nat) : ∀ s : Stmt PName, pureS s = true → PGoodS cmp
       obtain ⟨v, st1⟩ := r1
       rw [h1] at h
       simp at h; obtain ⟨_, _, rfl⟩ := h
-      exact evalE_pure cmpF callH hP e hs ρ st v st1 h1
+      exact evalE_nc cmpF callH hC e hs ρ st v st1 h1
   | setField p f e =>
     intro hs ρ st fl ρ' st' h
-    simp only [pureS, Bool.and_eq_true, Bool.not_eq_true'] at hs
+    simp only [ncS, Bool.and_eq_true] at hs
     simp only [exec] at h
     cases h1 : evalE cmpF callH ρ st p with
     | error x => simp [h1] at h
@@ -424,8 +420,8 @@ theorem exec_pure (lf : Nat) : ∀ s : Stmt PName, pureS s = true → PGoodS cmp
       | ok r2 =>
         obtain ⟨v, st2⟩ := r2
         rw [h2] at h
-        have S2 := (evalE_pure cmpF callH hP p hs.1.2 ρ st pv st1 h1).trans
-          (evalE_pure cmpF callH hP e hs.2 ρ st1 v st2 h2)
+        have S2 := (evalE_nc cmpF callH hC p hs.1.2 ρ st pv st1 h1).trans
+          (evalE_nc cmpF callH hC e hs.2 ρ st1 v st2 h2)
         cases pv with
         | ptr q =>
           cases q with
@@ -436,38 +432,50 @@ theorem exec_pure (lf : Nat) : ∀ s : Stmt PName, pureS s = true → PGoodS cmp
             | none => simp [h3] at h
             | some n =>
               simp [h3] at h; obtain ⟨_, _, rfl⟩ := h
-              refine S2.trans ⟨fun b => ?_, rfl, rfl⟩
+              refine S2.trans (fun b => ?_)
               simp only [upd]
               split
-              · next e => subst e; exact set_nonptr_ptrs hs.1.1 h3
-              · exact ⟨rfl, rfl, rfl⟩
+              · next e => subst e; exact set_noncolor hs.1.1 h3
+              · rfl
         | _ => simp at h
-  | setRoot e => intro hs; simp [pureS] at hs
-  | setSize e =>
+  | setRoot e =>
     intro hs ρ st fl ρ' st' h
-    simp only [pureS] at hs
+    simp only [ncS] at hs
     simp only [exec] at h
     cases h1 : evalE cmpF callH ρ st e with
     | error x => simp [h1] at h
     | ok r1 =>
       obtain ⟨v, st1⟩ := r1
       rw [h1] at h
-      have S1 := evalE_pure cmpF callH hP e hs ρ st v st1 h1
+      have S1 := evalE_nc cmpF callH hC e hs ρ st v st1 h1
+      cases v with
+      | ptr q => simp at h; obtain ⟨_, _, rfl⟩ := h; exact S1
+      | _ => simp at h
+  | setSize e =>
+    intro hs ρ st fl ρ' st' h
+    simp only [ncS] at hs
+    simp only [exec] at h
+    cases h1 : evalE cmpF callH ρ st e with
+    | error x => simp [h1] at h
+    | ok r1 =>
+      obtain ⟨v, st1⟩ := r1
+      rw [h1] at h
+      have S1 := evalE_nc cmpF callH hC e hs ρ st v st1 h1
       cases v with
       | int i =>
         simp at h; obtain ⟨_, _, rfl⟩ := h
-        exact S1.trans ⟨fun _ => ⟨rfl, rfl, rfl⟩, rfl, rfl⟩
+        exact S1.trans (fun _ => rfl)
       | _ => simp at h
   | ite c a b iha ihb =>
     intro hs ρ st fl ρ' st' h
-    simp only [pureS, Bool.and_eq_true] at hs
+    simp only [ncS, Bool.and_eq_true] at hs
     simp only [exec] at h
     cases h1 : evalE cmpF callH ρ st c with
     | error x => simp [h1] at h
     | ok r1 =>
       obtain ⟨v, st1⟩ := r1
       rw [h1] at h
-      have S1 := evalE_pure cmpF callH hP c hs.1.1 ρ st v st1 h1
+      have S1 := evalE_nc cmpF callH hC c hs.1.1 ρ st v st1 h1
       cases v with
       | bool vb =>
         cases vb with
@@ -476,13 +484,13 @@ theorem exec_pure (lf : Nat) : ∀ s : Stmt PName, pureS s = true → PGoodS cmp
       | _ => simp at h
   | loop c b ihb =>
     intro hs ρ st fl ρ' st' h
-    simp only [pureS, Bool.and_eq_true] at hs
+    simp only [ncS, Bool.and_eq_true] at hs
     simp only [exec] at h
-    exact iterate_pure (fun ρ st v st' h => evalE_pure cmpF callH hP c hs.1 ρ st v st' h)
+    exact iterate_nc (fun ρ st v st' h => evalE_nc cmpF callH hC c hs.1 ρ st v st' h)
       (fun ρ st fl ρ' st' h => ihb hs.2 ρ st fl ρ' st' h) lf ρ st fl ρ' st' h
   | ret e =>
     intro hs ρ st fl ρ' st' h
-    simp only [pureS] at hs
+    simp only [ncS] at hs
     simp only [exec] at h
     cases h1 : evalE cmpF callH ρ st e with
     | error x => simp [h1] at h
@@ -490,10 +498,10 @@ theorem exec_pure (lf : Nat) : ∀ s : Stmt PName, pureS s = true → PGoodS cmp
       obtain ⟨v, st1⟩ := r1
       rw [h1] at h
       simp at h; obtain ⟨_, _, rfl⟩ := h
-      exact evalE_pure cmpF callH hP e hs ρ st v st1 h1
+      exact evalE_nc cmpF callH hC e hs ρ st v st1 h1
   | ret2 a b =>
     intro hs ρ st fl ρ' st' h
-    simp only [pureS, Bool.and_eq_true] at hs
+    simp only [ncS, Bool.and_eq_true] at hs
     simp only [exec] at h
     cases h1 : evalE cmpF callH ρ st a with
     | error x => simp [h1] at h
@@ -507,10 +515,10 @@ theorem exec_pure (lf : Nat) : ∀ s : Stmt PName, pureS s = true → PGoodS cmp
         obtain ⟨y, st2⟩ := r2
         rw [h2] at h
         simp at h; obtain ⟨_, _, rfl⟩ := h
-        exact (evalE_pure cmpF callH hP a hs.1 ρ st x st1 h1).trans (evalE_pure cmpF callH hP b hs.2 ρ st1 y st2 h2)
+        exact (evalE_nc cmpF callH hC a hs.1 ρ st x st1 h1).trans (evalE_nc cmpF callH hC b hs.2 ρ st1 y st2 h2)
   | expr e =>
     intro hs ρ st fl ρ' st' h
-    simp only [pureS] at hs
+    simp only [ncS] at hs
     simp only [exec] at h
     cases h1 : evalE cmpF callH ρ st e with
     | error x => simp [h1] at h
@@ -518,10 +526,10 @@ theorem exec_pure (lf : Nat) : ∀ s : Stmt PName, pureS s = true → PGoodS cmp
       obtain ⟨v, st1⟩ := r1
       rw [h1] at h
       simp at h; obtain ⟨_, _, rfl⟩ := h
-      exact evalE_pure cmpF callH hP e hs ρ st v st1 h1
+      exact evalE_nc cmpF callH hC e hs ρ st v st1 h1
 
-theorem runBody_pure (lf : Nat) (p : Proc PName) (hs : pureS p.body = true) :
-    ∀ args st v st', runBody cmpF callH lf p args st = .ok (v, st') → PtrSame st st' := by
+theorem runBody_nc (lf : Nat) (p : Proc PName) (hs : ncS p.body = true) :
+    ∀ args st v st', runBody cmpF callH lf p args st = .ok (v, st') → ColSame st st' := by
   intro args st v st' h
   simp only [runBody] at h
   cases h1 : exec cmpF callH lf (Env.ofArgs args) st p.body with
@@ -529,7 +537,7 @@ theorem runBody_pure (lf : Nat) (p : Proc PName) (hs : pureS p.body = true) :
   | ok r1 =>
     obtain ⟨fl, ρ1, st1⟩ := r1
     rw [h1] at h
-    have S1 := exec_pure cmpF callH hP lf p.body hs _ st fl ρ1 st1 h1
+    have S1 := exec_nc cmpF callH hC lf p.body hs _ st fl ρ1 st1 h1
     cases fl with
     | normal => simp at h; obtain ⟨_, rfl⟩ := h; exact S1
     | ret w => simp at h; obtain ⟨_, rfl⟩ := h; exact S1
@@ -538,13 +546,13 @@ theorem runBody_pure (lf : Nat) (p : Proc PName) (hs : pureS p.body = true) :
 
 end
 
-/-- under the real call handler every pure procedure leaves the pointer structure untouched -/
-theorem call_pure (cmpF : Int → Int → Int) : ∀ fuel fn, isPure fn = true → SpecPure (call cmpF procs fuel) fn := by
+/-- under the real call handler the getters, setNode, the searches, Find and Set change no colour -/
+theorem call_nocol (cmpF : Int → Int → Int) : ∀ fuel fn, isNoCol fn = true → SpecNoCol (call cmpF procs fuel) fn := by
   intro fuel
   induction fuel with
   | zero => intro fn _ args st v st' h; simp [call] at h
   | succ f ih =>
     intro fn hp args st v st' h
-    exact runBody_pure cmpF _ ih f (procs fn) (pure_procs_pure fn hp) args st v st' h
+    exact runBody_nc cmpF _ ih f (procs fn) (nocol_procs fn hp) args st v st' h
 
 end Ekit.MiniGo.RBHeap
